@@ -817,7 +817,7 @@ func PreprocessSearchQuery(fs object.SearchFilters, attrs []string, cursor strin
 		} else {
 			if IsIntegerSearchOp(primMatcher) {
 				f := ofs[0]
-				if !f.AutoMatch && (primMatcher == object.MatchNumGE || primMatcher == object.MatchNumGT) {
+				if !f.AutoMatch && primMatcher == object.MatchNumGT {
 					primSeekKey = slices.Concat([]byte{metaPrefixAttrIDInt}, []byte(attrs[0]), MetaAttributeDelimiter, f.Raw)
 					primKeysPrefix = primSeekKey[:1+len(attrs[0])+attributeDelimiterLen]
 				} else {
@@ -1005,7 +1005,8 @@ func CalculateCursor(filt *object.SearchFilter, lastItem client.SearchResultItem
 		if _, err = hex.Decode(res[off:], []byte(lastItemVal)); err != nil {
 			return nil, fmt.Errorf("decode %q attribute from HEX: %w", attr, err)
 		}
-		off += copy(res[off+ln:], MetaAttributeDelimiter)
+		off += ln
+		off += copy(res[off:], MetaAttributeDelimiter)
 		copy(res[off:], lastItem.ID[:])
 		return res, nil
 	case object.FilterSplitID:
